@@ -183,6 +183,13 @@ func effectsOf(p *core.Program) *effects {
 		}
 	})
 	e.solve()
+	if sub := os.Getenv("LV_EFFDUMP"); sub != "" {
+		for fn, sm := range e.sums {
+			if strings.Contains(fn.FullName(), sub) {
+				fmt.Fprintf(os.Stderr, "EFF %s wParams=%v wBufs=%v\n", fn.FullName(), sm.wParams, sm.wBufs)
+			}
+		}
+	}
 	cache[p] = e
 	return e
 }
@@ -394,11 +401,12 @@ func (e *effects) origins(d *effDecl, x ast.Expr, depth int) []origin {
 		}
 		return rs
 	case *ast.CallExpr:
+		// a conversion views its operand, also through unsafe.Pointer: (*[8]uint64)(unsafe.Pointer(&p[j]))
+		if tv, ok := info.Types[y.Fun]; ok && tv.IsType() && len(y.Args) == 1 {
+			return e.origins(d, y.Args[0], depth+1)
+		}
 		sel, ok := unparen(y.Fun).(*ast.SelectorExpr)
 		if !ok {
-			if tv, ok := info.Types[y.Fun]; ok && tv.IsType() && len(y.Args) == 1 {
-				return e.origins(d, y.Args[0], depth+1)
-			}
 			return nil
 		}
 		if len(y.Args) == 0 && sel.Sel.Name == "El" {
